@@ -357,7 +357,10 @@ def oracle_lib(case, obs, ids):
         if p in mpaths:
             continue
         if p not in planned:
-            bad.append(('C04', 'path changed outside the announced plan: %s' % p)); continue
+            bad.append(('C04', 'path changed outside the announced plan: %s' % p))
+            if p in before and p not in after and not any(rp == p for _, rp in recorded):
+                bad.append(('C02', 'deleted a file no manifest entry records: %s' % p))
+            continue
         c = planned[p]
         if p in before and p not in after:
             if not any(rp == p for _, rp in recorded):
@@ -642,7 +645,24 @@ def user_edit(rng, cw, flt_hint=None, manifests=True):
     if k < 0.85 and manifests:
         r = rng.choice(cw.roots(None) or [{'target': 'codex', 'root': cw.codex_home}])
         pref = r['root'] + '/' + mf_name(r['target']); leg = r['root'] + '/' + LEGACY
-        what = rng.choice(['delete', 'garbage', 'foreign', 'legacy', 'badversion', 'stale_extra'])
+        what = rng.choice(['delete', 'garbage', 'foreign', 'foreign_listing', 'legacy', 'legacy_foreign', 'badversion', 'stale_extra'])
+        if what in ('foreign_listing', 'legacy_foreign'):
+            # a well-formed manifest of ANOTHER tool (under this root's per-target name, or under the legacy name) that
+            # lists what is in the root — the user's files included: it is no record of this target
+            other = rng.choice([t for t in ('codex', 'claude_code', 'zed', 'vscode', 'cursor', 'some-other-tool') if t != r['target']])
+            under = []
+            for dp, dns, fns in os.walk(r['root']):
+                if '.git' in dp.split(os.sep): continue
+                for fn in fns:
+                    q = os.path.join(dp, fn)
+                    if not is_manifest_name(fn) and not os.path.islink(q):
+                        under.append((os.path.relpath(q, r['root']), open(q, 'rb').read()))
+            under = under[:12]
+            tgt = pref if what == 'foreign_listing' else leg
+            if what == 'legacy_foreign' and os.path.exists(leg):
+                return 'none'
+            world.write(tgt, manifest_bytes(other, under) if rng.random() < 0.8 else b'{ "tool": 1, nope')
+            return 'manifest:' + what
         if what == 'delete':
             for q in (pref, leg):
                 if os.path.exists(q): os.remove(q)
@@ -1028,6 +1048,45 @@ def script_eol_only(st, cw, sb, rng):
         return tags, rng.choice(CONFIRMED_ENTRIES), False, None
     return None
 
+def script_foreign_manifest(st, cw, sb, rng):
+    """deploy; the user keeps notes in the roots; every root's manifest is replaced by a well-formed manifest of ANOTHER
+    tool (per-target name or legacy name) that lists everything in the root; a prompt is added whose output path the user
+    has already taken.  Such a manifest is no record: without --adopt the user's files stay, the taken path refuses"""
+    if st == 0:
+        return ['script:all'], 'cli_json', True, None
+    if st == 1:
+        tags = []
+        roots = cw.roots(None)
+        for r in roots:
+            if rng.random() < 0.7:
+                world.write(r['root'] + '/' + rng.choice(['notes.md', 'keep/own.txt', 'todo.txt']), b'the user\'s notes\n'); tags.append('user:userfile')
+        taken = None
+        if rng.random() < 0.6:
+            before = {d['path'] for d in cw.desired(None)}
+            cw.add_prompt(); cw.write()
+            for d in cw.desired(None):
+                if d['path'] not in before and not os.path.lexists(d['path']):
+                    world.write(d['path'], b'the user was here first\n'); taken = d['path']; tags.append('user:collide_new')
+        for r in roots:
+            pref = r['root'] + '/' + mf_name(r['target']); leg = r['root'] + '/' + LEGACY
+            other = rng.choice([t for t in ('codex', 'claude_code', 'zed', 'vscode', 'cursor', 'some-other-tool') if t != r['target']])
+            under = []
+            for dp, dns, fns in os.walk(r['root']):
+                if '.git' in dp.split(os.sep): continue
+                for fn in fns:
+                    q = os.path.join(dp, fn)
+                    if not is_manifest_name(fn) and not os.path.islink(q):
+                        under.append((os.path.relpath(q, r['root']), open(q, 'rb').read()))
+            where = rng.choice(['pref', 'pref', 'legacy'])
+            if where == 'legacy' and os.path.exists(pref): os.remove(pref)
+            world.write(pref if where == 'pref' else leg, manifest_bytes(other, under[:16]))
+            tags.append('manifest:foreign_listing_' + where)
+        return tags, rng.choice(CONFIRMED_ENTRIES), False, None
+    if st == 2:
+        t = cw.edit_config(); cw.write()
+        return ['cfg:' + t], rng.choice(CONFIRMED_ENTRIES), False, None
+    return None
+
 def script_case_rename(st, cw, sb, rng):
     """deploy; a module's file is renamed to a spelling that differs only in letter case (the old output becomes
     managed-but-undesired, the new spelling is a NEW path); the user already has a file of their own at the new
@@ -1102,14 +1161,22 @@ def hist_drift_then_deploy(st, cw, sb, rng, hs):
     if st == 1:
         D = cw.desired(None); victims = rng.sample(D, min(len(D), rng.randrange(1, 3)))
         for d in victims: world.write(d['path'], b'local edit made after S0\n')
-        for m in cw.modules:
+        mods = list(cw.modules)
+        some = mods if rng.random() < 0.4 or len(mods) < 2 else rng.sample(mods, rng.randrange(1, len(mods)))   # the others keep their S0 bytes in S1
+        for m in some:
             for fn in sorted(m['files']):
                 if fn == 'SKILL.md': m['files'][fn] = skill_md(m['id'].split(':')[1], 'second')
                 elif m['type'] == 'command': m['files'][fn] = command_md('do second')
                 else: m['files'][fn] = b'second version of %s\n' % fn.encode()
         cw.write()
         return {'kind': 'deploy', 'adopt': False, 'flt': None, 'entry': rng.choice(['cli_json', 'cli_human_yes', 'mcp']), 'tags': ['script:second', 'user:drift']}
-    if st == 2: return {'kind': 'rollback', 'to': 0, 'tags': ['script:rollback_to_parent']}
+    if st == 2:
+        # the user edits deployed files again (among them files S1 did not touch: same bytes in S0 and S1)
+        D = cw.desired(None)
+        for d in rng.sample(D, min(len(D), rng.randrange(1, 4))):
+            if os.path.exists(d['path']) and not os.path.islink(d['path']):
+                world.write(d['path'], b'local edit made after S1\n')
+        return {'kind': 'rollback', 'to': 0, 'tags': ['script:rollback_to_parent', 'user:drift_after_S1']}
     if st == 3: return {'kind': 'rollback', 'to': 1, 'tags': ['script:redo']}
     return None
 
@@ -1591,6 +1658,16 @@ def oracle_rollback(ctx, props, hs, ordn, before, after, sb, base, rec):
         else:
             ctx.violation(what, r2)
         out.append(p)
+    # "... so re-planning S's configuration shows no changes": also a file of S that no later deployment touched (the user
+    # edited or removed it meanwhile) holds S's bytes again.  Judged when no target filter is involved (K6a) and S is a deploy.
+    if S['kind'] == 'deploy' and S['flt'] is None and H['flt'] is None and not any(sn.get('flt') is not None for sn in later):
+        for d in S['D']:
+            p = d['path']
+            if p in touched or p in out:
+                continue
+            if after.get(p) != d['bytes']:
+                ctx.violation('after rollback %s does not hold the snapshot\'s content although the snapshot manages it (re-planning its '
+                              'configuration shows a change)' % p, dict(rec, path=p, cls=None))
     # manifests: those S wrote hold S's version again; manifests first written after S left behind = K6c
     plain = all(sn['kind'] in ('deploy', 'rollback') and sn['flt'] is None and not sn['adopted'] for sn in [S] + later)
     for p in set(before) | set(after):
